@@ -64,7 +64,18 @@ def make_case(rng, cid, wd, variant=None, defaults=False):
         if rng.chance(0.4):
             os.makedirs(os.path.join(d, out_name))                       # existing output directory (with stale files)
             open(os.path.join(d, out_name, 'v_out.dat'), 'w').write('stale\n') if rng.chance(0.3) and directed else None
-    rng.shuffle(args)                                                    # (option order is irrelevant; keep as generated)
+    # the options in a random order (an option keeps its value next to it): `--assortative` before `--a`, `--k` last, ...
+    groups, i = [], 0
+    while i < len(args):
+        if i + 1 < len(args) and not args[i + 1].startswith('--'):
+            groups.append(args[i:i + 2])
+            i += 2
+        else:
+            groups.append(args[i:i + 1])
+            i += 1
+    if not defaults or True:
+        groups = rng.shuffle(groups)
+    args = [x for g_ in groups for x in g_]
     starts = [s for s, _, _ in recs]
     ends = [t for _, t, _ in recs]
     weights = [w for _, _, ws in recs for w in ws]
